@@ -61,6 +61,16 @@ def det_case(draw, tier):
     return {"kind": kind, "fmt": fmt, "sources": sources, "var": var}
 
 
+def enumerate_cases(tier):
+    """Argument lists that name several configuration files: each option in which two configurations of one invocation may
+    differ (they share their source files), in both argument orders."""
+    from . import c20
+
+    for opt in sorted(c20.PAIR_OPTIONS):
+        fam, vals = c20.PAIR_OPTIONS[opt]
+        yield {"kind": "cfgorder", "fmt": c20.FAMILY_OF[fam], "option": opt, "family": fam, "values": vals, "sources": [], "var": {}}
+
+
 def cases(tier):
     return det_case(tier)
 
@@ -219,8 +229,48 @@ def judge_cli(case, v):
                 v.fail("bytes-differ", "cli:" + label.split(",")[0], {"variant": label, "base": h0, "variant_sha": h, "fmt": fmt})
 
 
+def judge_cfgorder(case, v):
+    """`nanoemoji a.toml b.toml` and `nanoemoji b.toml a.toml` over the same files: every output font byte-identical."""
+    from . import c20
+
+    opt, fam = case["option"], case["family"]
+    v.cls("cfgorder:" + opt)
+    v.nontrivial = True
+    base = {"color_format": c20.FAMILY_OF[fam]}
+    if fam == "bitmap":
+        base["bitmap_resolution"] = 40
+    cfgs = []
+    for i, val in enumerate(case["values"]):
+        c = dict(base)
+        c[opt] = val
+        c["output_file"] = "Font%s.ttf" % "AB"[i]
+        c["family"] = "Pair %s" % "AB"[i]
+        cfgs.append(c)
+    files = {"src/" + k: x for k, x in c20.FILES.items()}
+    hashes = []
+    for order in (["c0.toml", "c1.toml"], ["c1.toml", "c0.toml"]):
+        with Workspace("c08cfg") as ws:
+            ws.shims()
+            for name, text in files.items():
+                ws.write(name, text)
+            for i, c in enumerate(cfgs):
+                c20.write_toml(ws, "c%d.toml" % i, c)
+            rc, out = ws.run(["nanoemoji", "--build_dir", "build"] + order, ninja_j=4, hashseed="0")
+            hashes.append([("FAILED:" + tail(out, 2)) if rc != 0 else sha(ws.path("build", c["output_file"])) for c in cfgs])
+    if all(str(h).startswith("FAILED") for hs in hashes for h in hs):
+        v.rejected = "build fails: " + str(hashes[0][0])[:60]
+        return
+    v.extra_evals = 1
+    for i, c in enumerate(cfgs):
+        if hashes[0][i] != hashes[1][i]:
+            v.fail("bytes-differ", "cli:config-order:" + opt, {"config": i, "option": opt, "value": c[opt], "order01": hashes[0][i], "order10": hashes[1][i]})
+
+
 def judge(case):
     v = Verdict()
+    if case["kind"] == "cfgorder":
+        judge_cfgorder(case, v)
+        return v
     v.cls("tier:" + case["kind"], "fmt:" + case["fmt"])
     v.nontrivial = nontrivial(case)
     if case["kind"] == "api":
@@ -231,6 +281,8 @@ def judge(case):
 
 
 def shrink(case):
+    if case["kind"] == "cfgorder":
+        return
     srcs = case["sources"]
     for i in range(len(srcs)):
         if len(srcs) > 2:
